@@ -29,6 +29,7 @@ def cases(tier, seed):
 
 def run_both(drv, case):
     io, objs = arrays.run_impl(case)
+    LAST_LEAK[0] = arrays.LEAK[0]
     run_both.objs = objs
     mo = drv.ask(arrays.model_req(case)) if drv is not None else None
     return arrays.canon(io), (arrays.canon(mo) if mo is not None else None)
@@ -50,7 +51,12 @@ def check_obs(case, ob, args):
     return None
 
 
+LAST_LEAK = [None]
+
+
 def oracle(case, obs):
+    if LAST_LEAK[0] is not None:
+        return {"label_does_not_address_its_slice": LAST_LEAK[0]}
     ctor = obs["ctor"]
     f = check_obs(case, ctor, None)
     if f:
